@@ -184,7 +184,7 @@ func Run() *core.Result {
 	}
 	for k := range Exempt {
 		if !used[k] {
-			res.Brokenf("SIB.guards: stale exemption %s", k)
+			res.Stale("SIB.guards: stale exemption %s", k)
 		}
 	}
 	return res
